@@ -53,16 +53,16 @@ CHECKS = {
    note=COMMON_NOTE, ref="5/C13"),
  "C14": dict(tech="verified checker: Coq write-once classifier with proved soundness for all logs, extracted and run on the interposed backend write log of every program",
    text="coq/WriteOnce.v replays a backend write log, tracks chunk extents and accepts a write only if it is an append, a 32-byte header rewrite changing nothing but item_next and crc32 (valid CRC), a head-table entry going from 0 to an existing chunk offset (with its footer), or the file header; coq/Properties_C14.v proves for ALL logs that acceptance implies the semantic statement over file bytes: the file never shrinks, completed chunks keep tag/meta/lengths/item_prev, and no payload byte of a non-HEAD chunk ever changes. Every write(2)/ftruncate of every generated program is interposed (--wrap) and fed to the extracted checker.",
-   note=COMMON_NOTE + "Verified checker on observed logs; that every log the writer can produce passes is not proved. Threaded-writer logs: see C06.", ref="5/C14"),
+   note=COMMON_NOTE + "Verified checker on observed logs (sync writer programs, and threaded-writer runs under the C06 scheduling harness with every backend write a scheduling point); that every log the writer can produce passes is proved for the byte-exact writer model when coq/Properties_C14_writer.v is present (see evidence: obligations).", ref="5/C14"),
  "C15": dict(tech="relational differential run: same stream with and without omission + extracted Spec",
    text="Two signals with identical definition and data, one with omission toggles / constant blocks: lengths equal the specification, stored blocks bit-exact, automatically omitted <=8-bit constant blocks bit-exact through unaligned windows, requested omissions return the right size, summary-level statistics bit-identical.",
    note=COMMON_NOTE, ref="5/C15"),
  "C16": dict(tech="Coq proof over all 2^128 parameter combinations x 7 widths (uint32 arithmetic explicit) + exhaustive boundary grid on jls_core_signal_def_align",
    text="coq/Properties_C16.v on the faithful model of jls_core_signal_def_validate/_align (64-bit rounding with rejection, per-width defaults incl. 24-bit, minimums, size limits): for every width and all 32-bit field values the definition is either rejected with PARAMETER_INVALID or stored with parameters satisfying every relation the format relies on (entry = multiple of 256 bits, sdf | spd, (spd/sdf) | eps, sumdf | eps, minimums, annotation/UTC factors >= 10, buffer sizes within 32-bit limits); normalising a stored definition changes nothing (unguarded idempotence); zero fields take the per-width defaults; the fitting loop terminates. coq/SigDefSpec.v ties Spec.sp_align to it. jls_core_signal_def_align is run on ~180k cases (complete small grid x 15 types, boundary sweeps, guard boundaries) on plain and ASan builds: equal to the model, consistent, idempotent, plus file round trips.",
    note=COMMON_NOTE + "Documentation theorems (*_old) record the five repaired defect classes.", ref="5/C16"),
- "C17": dict(tech="differential run: reader dump of the jls_copy output against the extracted Spec.spec_of of the original program",
-   text="Generated files (several signals/types, annotations, UTC, user data, omission) are copied with jls_copy; sources, signals, lengths, windows, annotations, UTC and user data of the copy are compared with the extracted specification of the original program.",
-   note=COMMON_NOTE, ref="5/C17"),
+ "C17": dict(tech="Coq proof on the abstract specification (any program, any re-issue satisfying the relation that describes jls_copy: observations and every reader answer preserved, no call rejected) + byte-identity of the jls_copy output with the writer run on the re-issued calls + reader dump of the copy against the extracted Spec",
+   text="coq/CopyModel.v states what jls_copy does relative to the accepted calls of the original program (cp_reissue: stored aligned definitions, per-signal streams re-chunked contiguously, annotations/UTC/user data in order, no omit/flush, definitions before use); coq/Properties_C17.v proves for ALL programs p and re-issues q: every call of q is accepted and the observation (definitions as read, offset, length, samples, annotations, UTC, user data) of q equals that of p, that every reader answer of Spec (windows, statistics, annotation seek, UTC iteration) is a function of the observation, and that the relation is satisfiable for every p (executable instance cp_prog); refutation witnesses show that a dropped block changes the observation (the recorded omitted-blocks finding). Tie to copy.c: for generated closed originals the chunk walk of the file is turned into the script of calls copy.c must make; the jls_copy output must be byte-identical to the writer run on that script, and the extracted model must accept the script and read it back like the original; the reader dump of every copy is compared with the extracted specification of the original.",
+   note=COMMON_NOTE + "The theorems are about Spec (what the reader can see), not about copy.c; copy.c is tied by the differential runs. Unclosed originals: covered by the differential run only. Omitted blocks are not re-emitted by jls_copy (known finding).", ref="5/C17"),
  "C18": dict(tech="Coq proof (all lengths/alignments/code paths) + differential run of jls_crc32c on SSE4.2, table and ASan builds",
    text="Theorems in coq/Properties_C18.v: the byte-wise table form, crc32cSlicingBy8 (every alignment), the SSE4.2/ARM instruction loops and the three header variants equal the bit-serial CRC-32C reference for every byte list; the 8x256 tables parsed from crc32c_sw.c equal the generator polynomial's. The binaries are tied to the model by running jls_crc32c/jls_crc32c_hdr (both CRC builds + ASan) against the extracted reference on every length 0..320 (thorough 0..4096) x 8 alignments x 4 patterns and more.",
    note=COMMON_NOTE + "Instruction semantics of crc32 (Intel SDM) as modelled; crc32c_arm_neon.c modelled but not executed.", ref="5/C18"),
